@@ -286,6 +286,11 @@ func ruleC10(w *World, r *Report) {
 	for _, ct := range clientTypes {
 		k.clientVerifyRule("C10.client", ct, "VerifyPacketCleanCommitment")
 	}
+	// the proof verifiers behind VerifyPacketCleanCommitment (shared with C01/C08)
+	k.merkleRule("C10.merkle")
+	for _, ct := range []string{pBSC, pETH} {
+		k.mptRule("C10.mpt", ct)
+	}
 	// owners
 	clean := w.Method(pPacketKeeper, "Keeper", "CleanPacket")
 	recvClean := w.Method(pPacketKeeper, "Keeper", "RecvCleanPacket")
